@@ -177,6 +177,8 @@ inductive XOp (α : Type) where
   | drain (i : Nat)
   /-- `s.name` / `s.name()` / `s(args)`: a NEW Stream over `map(g, s._data)` (`s` shares it: dead for us) -/
   | attr (i : Nat) (g : α → Ev α)
+  /-- `s.__next__`: "Streams are iterable, not iterators" — AttributeError, nothing is read -/
+  | nextAttr (i : Nat)
 
 def xteeOf (h : XHeap α) (parent : XIt α) : XHeap α × XIt α :=
   (h ++ [⟨parent, []⟩], .tee h.length 0)
@@ -230,6 +232,11 @@ def xstep (f : Nat) (st : XSt α) : XOp α → Option (XSt α × Obs α)
   | .attr i g =>
     match st.pool[i]? with
     | some (some it) => some (⟨st.heap, st.pool.set i none ++ [some (.map g it)]⟩, .new st.pool.length)
+    | _ => some (st, .err "noobj")
+
+  | .nextAttr i =>
+    match st.pool[i]? with
+    | some (some _) => some (st, .err "AttributeError")
     | _ => some (st, .err "noobj")
 
 def xrun (f : Nat) : XSt α → List (XOp α) → List (Option (Obs α))
